@@ -189,16 +189,27 @@ def _ts_member(out, ind, mem, i, lang):
 
 
 def _ts_class(out, cls, infos, lang):
+    form = cls.get("form", "decl")  # decl | expr (`const Name = class {`) | returned (`return class Name {` inside a function)
+    ind = 1 if form == "returned" else 0
+    if form == "returned":
+        out.add(0, f"function make_{cls['name'].lower()}() {{")
     start = out.pos()
     head = ("export " if cls.get("export") else "") + ("abstract " if cls.get("abstract") and lang == "ts" else "")
     gen = "<T>" if cls.get("generic") and lang == "ts" else ""
-    out.add(0, f"{head}class {cls['name']}{gen} {{")
+    if form == "expr":
+        out.add(0, ("export " if cls.get("export") else "") + f"const {cls['name']} = class {{")
+    elif form == "returned":
+        out.add(1, f"return class {cls['name']} {{")
+    else:
+        out.add(0, f"{head}class {cls['name']}{gen} {{")
     for i in range(cls.get("pad", 0)):
-        out.add(1, f"f_{i} = {i};")
+        out.add(ind + 1, f"f_{i} = {i};")
     for i, mem in enumerate(cls["members"]):
-        _ts_member(out, 1, mem, i, lang)
-    out.add(0, "}")
+        _ts_member(out, ind + 1, mem, i, lang)
+    out.add(ind, "}" if form == "decl" else "};")
     infos.append({"name": cls["name"], "line": start + 1, "spans": [(start, out.pos())]})
+    if form == "returned":
+        out.add(0, "}")
 
 
 # ------------------------------------------------------------------------------------ rust
